@@ -152,6 +152,19 @@ class Interp:
             return None
         if t == "cmp":
             op, a, b = c[1], c[2], c[3]
+            om = self.cfg.flags.get("order_model")
+            if om:
+                # symbols that stand for the members of one ordering class (a representative number each): a comparison
+                # between two of them (or with a constant) is decided by the class, nothing else is
+                def rep_(x):
+                    if x[0] == "sym" and x[1] in om:
+                        return om[x[1]]
+                    if x[0] == "num":
+                        return x[1]
+                    return None
+                ra, rb = rep_(a), rep_(b)
+                if ra is not None and rb is not None and (a[0] == "sym" or b[0] == "sym"):
+                    return {"<": ra < rb, "<=": ra <= rb, ">": ra > rb, ">=": ra >= rb, "==": ra == rb, "!=": ra != rb}[op]
             # finiteness assumptions on input atoms
             for x, y in ((a, b), (b, a)):
                 if y[0] == "num" and (y[1] == float("inf") or y[1] == float("-inf")) and self._finite(x):
@@ -842,7 +855,55 @@ class Interp:
         return self.symbolic_loop(st, env, sp, iv, elem)
 
     def exec_while(self, st: ast.While, env: dict) -> Optional[dict]:
+        if self.cfg.flags.get("unroll_while"):
+            r = self._unrolled_while(st, env, int(self.cfg.flags["unroll_while"]))
+            if r is not NotImplemented:
+                return r
         return self.symbolic_loop(st, env, None, None, None)
+
+    def _unrolled_while(self, st: ast.While, env: dict, bound: int):
+        """a while loop whose test is decided at every trip (concrete list lengths, members of a fixed ordering class) is
+        followed trip by trip; NotImplemented when the very first test is not decided"""
+        fr = self.frames[-1]
+        for trip in range(bound + 1):
+            c = self.truth(self.eval(st.test, env))
+            d = self.decide(c)
+            if d is None:
+                if trip == 0:
+                    return NotImplemented
+                self.lose("a loop test stopped being decidable after some trips", st)
+                return self.symbolic_loop(st, env, None, None, None)
+            if d is False:
+                return self.exec_block(st.orelse, env) if st.orelse else env
+            if trip == bound:
+                raise AnalysisError(f"{fr.fi.qualname}: loop still running after {bound} decided trips")
+            ls = dict(continues=[], breaks=[], path_base=len(self.path))
+            fr.loop_stack.append(ls)
+            n = len(self.path)
+            r = self.exec_block(st.body, env)
+            del self.path[n:]
+            fr.loop_stack.pop()
+            if ls["breaks"] or ls["continues"]:
+                # break/continue under decided conditions only
+                if r is None and ls["breaks"] and not ls["continues"] and all(not cond for cond, _ in ls["breaks"]):
+                    e2 = ls["breaks"][-1][1]
+                    env.clear()
+                    env.update(e2)
+                    return env
+                if r is None and ls["continues"] and not ls["breaks"] and all(not cond for cond, _ in ls["continues"]):
+                    e2 = ls["continues"][-1][1]
+                    env.clear()
+                    env.update(e2)
+                    continue
+                self.lose("break/continue under an undecided condition in an unrolled loop", st)
+                return self.symbolic_loop(st, env, None, None, None)
+            if r is None:
+                return None
+            if r is not env:
+                snap = dict(r)
+                env.clear()
+                env.update(snap)
+        return env
 
     def symbolic_loop(self, st, env: dict, sp: Optional[Space], iv: Optional[str], elem) -> Optional[dict]:
         fr = self.frames[-1]
@@ -1507,7 +1568,21 @@ class Interp:
                 left = right
             return out
         if isinstance(n, ast.BoolOp):
-            vals = [self.eval(v, env) for v in n.values]
+            # short-circuit: operands after one that decides the outcome are not evaluated (they may not even be defined:
+            # `len(a) == 0 or a[0][0] > ...`)
+            vals = []
+            for vn in n.values:
+                v = self.eval(vn, env)
+                vals.append(v)
+                if isinstance(v, Sc) and v.e is not None and _is_bool(v.e):
+                    d_ = self.decide(v.e)
+                    if (isinstance(n.op, ast.Or) and d_ is True) or (isinstance(n.op, ast.And) and d_ is False):
+                        if all(isinstance(x, Sc) and x.e is not None and _is_bool(x.e) for x in vals):
+                            return Sc(sym.TRUE if isinstance(n.op, ast.Or) else sym.FALSE)
+                        break
+            if len(vals) < len(n.values):
+                # decided by a later operand after value-like ones: fall back to evaluating everything
+                vals = [self.eval(v, env) for v in n.values]
             if all(isinstance(v, Sc) and _is_bool(v.e) for v in vals):
                 f = sym.And if isinstance(n.op, ast.And) else sym.Or
                 return Sc(f(*[v.e for v in vals]))
